@@ -195,7 +195,7 @@ pub fn gen_case(uni: &Universe, r: &mut Rng) -> (ClientSpec, Cfg, Vec<Step>) {
                     1 => peer_max as i64 + 7,
                     2 => peer_max as i64 + 5,
                     3 => 2 * peer_max as i64,
-                    _ => r.range(12, peer_max + 6) as i64,
+                    _ => r.range(12, (peer_max + 6).max(12)) as i64,
                 }
             } else {
                 r.range(12, 20000) as i64
